@@ -21,7 +21,7 @@ def check(F, rep, tier):
     for bi, si, st in f.stmts():
         if st[0] == "=" and st[2][0] == "agg" and st[2][1].get("adt", "").endswith("context::ZervTemplateContext"): agg = (bi, st)
     if agg is None:
-        rep.bad("R15.1", "unrecognised-shape:context", "from_zerv does not build a ZervTemplateContext literal", f.where())
+        rep.undecided("R15.1", "unrecognised-shape:context", "from_zerv does not build a ZervTemplateContext literal", f.where())
         return core.finish(rep, explanation=EXPL)
     bi, st = agg
     fields = dict(zip(st[2][1]["fields"], st[2][2]))
@@ -98,7 +98,7 @@ def check(F, rep, tier):
               "pep440_obj": {"base_part": "PEP440::to_base_part", "pre_release_part": "PEP440::to_pre_release_part", "build_part": "PEP440::to_build_part"}}
     for obj, want in wiring.items():
         for o in mir.trace_op(f, fields[obj], transparent=()) if obj in fields else []:
-            if o.kind != "agg": rep.bad("R15.2", "unrecognised-shape:" + obj, "%s is not a literal" % obj, f.where()); continue
+            if o.kind != "agg": rep.undecided("R15.2", "unrecognised-shape:" + obj, "%s is not a literal" % obj, f.where()); continue
             rv = mir.rv_at(f, *o.data)
             for fname, op in zip(rv[1]["fields"], rv[2]):
                 cs = [(mir.callee(f.blocks[x.data]["t"]) or "") for x in mir.trace_op(f, op, transparent=()) if x.kind == "call"]
